@@ -51,6 +51,14 @@ pub fn check(deep: bool, st: &mut TStats, fails: &mut Vec<Failure>) {
             for ch in chains { for ctx in contexts { if let Ok(f) = fol::Formula::from_str(&ctx.replace("{}", &ch)) { if !f.predicates().is_empty() || ctx == "{}" || ctx.starts_with("not") { srcs.push(rename(&f)); } } } }
         }
     }
+    // systematic: every relation between a quantified variable of each sort and constants / other variables
+    for r in ["=", "!=", "<", "<=", ">", ">="] {
+        for f in [format!("forall X (p(X) -> X {r} 0)"), format!("forall X (p(X) -> a {r} X)"), format!("exists X (p(X) and q(X, X) and X {r} #sup)"), format!("exists N$i (q(N$i) and N$i {r} 1)"), format!("forall N$i (q(N$i) -> 1 - N$i {r} N$i * 2)"),
+                  format!("forall X N$i (q(X, N$i) -> X {r} N$i)"), format!("forall N$i X (q(X, N$i) -> N$i {r} X)"), format!("exists S$s (p(S$s) and S$s {r} a)"), format!("forall S$s N$i (p(S$s) and q(N$i) -> N$i {r} S$s)"),
+                  format!("forall X Y (q(X, Y) -> X {r} Y)"), format!("exists X Y N$i (q(X, Y) and p(N$i) and X {r} N$i + 1 and Y {r} X)"), format!("forall M$i N$i (q(M$i, N$i) -> M$i * N$i - 1 {r} N$i - M$i)")] {
+            if let Ok(f) = fol::Formula::from_str(&f) { srcs.push(rename(&f)); }
+        }
+    }
     // systematic: ground integer terms of depth <= 2 over a few numerals (negative ones included) with unary minus, +, -, *:
     // the rendering must denote the same integer (compared with the value and with the value plus one)
     {
